@@ -270,9 +270,12 @@ def first_level(index, reg: Registry, ci: ContractInfo, prop: str, known_exclude
     return prefixes
 
 
-def explore_prefix(index, reg: Registry, ci: ContractInfo, prop: str, prefix, known_excludes=(), max_paths=MAX_PATHS):
-    """Symbolic execution of all paths below a decision prefix; returns (FunctionReport, [(full_id, Obligation, inputs, path_no)])."""
+def explore_prefix(index, reg: Registry, ci: ContractInfo, prop: str, prefix, known_excludes=(), max_paths=MAX_PATHS, budget=None):
+    """Symbolic execution of all paths below a decision prefix; returns (FunctionReport, [(full_id, Obligation, inputs, path_no)]).
+    With a budget, the subtrees not yet entered after `budget` paths are handed back in rep.leftover (independent decision prefixes:
+    the caller schedules them as new work units, so one deep subtree does not keep a single core busy)."""
     rep = FunctionReport(ci)
+    rep.leftover = []
     f = index.function(ci.target) if ci.kind == 'function' else None
     rep.source_hash = f.source_hash() if f is not None else ''
     I = Interp(index, reg)
@@ -283,6 +286,9 @@ def explore_prefix(index, reg: Registry, ci: ContractInfo, prop: str, prefix, kn
         dec = work.pop()
         if rep.paths >= max_paths:
             rep.unsupported.append(f'path limit {max_paths} reached')
+            break
+        if budget is not None and rep.paths >= budget:
+            rep.leftover = [dec] + work
             break
         I.reset(dec)
         I.verifying = f.qualname if f is not None else None
@@ -513,7 +519,12 @@ def _replay(ci: ContractInfo, ob_kind: str, ob_label: str, model: dict):
             if exc is not None:
                 info.update(confirmed=None, reason='real code raised, post clause not applicable')
                 return info
-            ok = _call_native(ci, 'post_' + base, values)
+            try:
+                ok = _call_native(ci, 'post_' + base, values)
+            except Exception as e:
+                # the clause itself raised on the real result (e.g. it reads a field of a token that is not there): it does not hold
+                ok = False
+                info['clause_raised'] = f'{type(e).__name__}: {e}'[:300]
             info.update(confirmed=(not ok), clause='post_' + base)
         elif ob_kind == 'exc':
             if base.startswith('no-'):
